@@ -48,7 +48,7 @@ SUBS = ("sub", "extras", "engine", "tools", "models", "kit")   # several share l
 def probes():
     return ["dry_run_ok", "real_run_ok_wrote_symbol", "merge_into_existing_output", "dry_over_populated_output",
             "fault_fired_in_real_run", "fault_fired_in_dry_run", "blacklist_excluded_subpackage", "recursive_real_ok",
-            "crash_fired", "sa_submodule_requested"]
+            "crash_fired", "sa_submodule_requested", "reexport_via_subpackage_real_ok"]
 
 
 # ------------------------------------------------------------------------------------ generators
@@ -82,7 +82,10 @@ def package_spec(draw):
     pkg = {"name": draw(st.sampled_from(("mypkg", "toolkit", "acme"))),
            "style": draw(st.sampled_from(("abs", "abs", "abs", "abs", "abs", "rel"))),
            "modules": draw(_modules(used)), "subs": {},
-           "reexport_subs": draw(st.booleans())}
+           "reexport_subs": draw(st.booleans()),
+           # how the top-level package re-exports a sub-package's symbols: from the defining module, or from the
+           # sub-package itself (`from pkg.sub import Name`)
+           "reexport_via": draw(st.sampled_from(("module", "module", "subpackage")))}
     for sn in draw(st.lists(st.sampled_from(SUBS), min_size=0, max_size=2, unique=True)):
         sub = {"modules": draw(_modules(used, 1, 2)), "subs": {}}
         if draw(st.integers(0, 3)) == 3:
@@ -162,6 +165,13 @@ def render_package(pkg):
             all_names += names
         if top and pkg["reexport_subs"]:
             for sn in sorted(node["subs"]):
+                if pkg.get("reexport_via") == "subpackage":
+                    names = [s["spec"]["name"] for mn in sorted(node["subs"][sn]["modules"])
+                             for s in node["subs"][sn]["modules"][mn]]
+                    lines.append(("from %s.%s import %s" % (fq, sn, ", ".join(names))) if pkg["style"] == "abs" else
+                                 ("from .%s import %s" % (sn, ", ".join(names))))
+                    all_names += names
+                    continue
                 for mn in sorted(node["subs"][sn]["modules"]):
                     names = [s["spec"]["name"] for s in node["subs"][sn]["modules"][mn]]
                     if pkg["style"] == "abs":
@@ -470,6 +480,8 @@ def simulate(plan, enumerate_all=None):
                     viols += v2
                     if headers:
                         bump(probe, "real_run_ok_wrote_symbol")
+                        if pkg.get("reexport_subs") and pkg.get("reexport_via") == "subpackage" and pkg["subs"]:
+                            bump(probe, "reexport_via_subpackage_real_ok")
                         bump(probe, "real_ok_emit_" + cmd["emit"])
                         if cmd["recursive"]:
                             bump(probe, "recursive_real_ok")
